@@ -21,7 +21,13 @@ for a in args:
     env = dict(os.environ, VERIF_REPO=wt, VERIF_EVIDENCE_DIR=os.path.join(V, '.work', 'evidence_seed'))
     try:
         for p in props:
-            r = subprocess.run([os.path.join(V, 'check'), p, '--tier', tier], capture_output=True, text=True, cwd=V, env=env)
+            try:
+                r = subprocess.run([os.path.join(V, 'check'), p, '--tier', tier], capture_output=True, text=True, cwd=V, env=env, timeout=1800)
+            except subprocess.TimeoutExpired:
+                subprocess.run(['pkill', '-f', os.path.join(V, '.work')])
+                results.setdefault(sid, {})[p] = dict(rc=-1, caught=False, keys=['check timed out after 1800 s'], tier=tier)
+                print('%-8s %s TIMEOUT' % (sid, p))
+                continue
             keys = [l.strip()[4:] for l in r.stdout.splitlines() if l.startswith('  key=')]
             results.setdefault(sid, {})[p] = dict(rc=r.returncode, caught=r.returncode == 1, keys=keys[:6], tier=tier)
             print('%-8s %s rc=%d %s' % (sid, p, r.returncode, '; '.join(keys[:3])[:200]))
